@@ -102,3 +102,39 @@ class NativeCompiler:
             lines = [l.split() for l in f if l.strip()]
         log("  compiler native harness: %d lines, %.1fs" % (len(lines), time.time() - t))
         return lines
+
+
+class NativeTranspiler:
+    def __init__(self, scratch):
+        self.s = scratch
+        self.installed = False
+
+    def run(self, vectors):
+        """vectors: list of (id, opcode, text line bytes) -> {id: tokens}"""
+        src = self.s.path("bytecode_dev_transpiler", "src")
+        if not self.installed:
+            shutil.copy(os.path.join(VERIF, "native", "transpiler_harness.rs"), os.path.join(src, "verif_native.rs"))
+            with open(os.path.join(src, "lib.rs"), "a") as f:
+                f.write("\n#[cfg(test)]\nmod verif_native;\n")
+            self.installed = True
+        work = os.path.join(self.s.dir, "transpile_work")
+        os.makedirs(work, exist_ok=True)
+        vec = os.path.join(self.s.dir, "transpile_vectors.txt")
+        res_path = os.path.join(self.s.dir, "transpile_results.txt")
+        with open(vec, "w") as f:
+            for vid, opcode, line in vectors:
+                f.write("%s %d %s\n" % (vid, opcode, line.hex()))
+        if os.path.exists(res_path):
+            os.remove(res_path)
+        cmd = ["cargo", "test", "--offline", "--lib", "-p", "bytecode_dev_transpiler", "--target-dir", os.path.join(self.s.dir, "target-native"),
+               "verif_native_run", "--", "--nocapture", "--test-threads", "1"]
+        p = run(cmd, cwd=self.s.repo, env=env_offline({"VERIF_TRANSPILE_VECTORS": vec, "VERIF_RESULTS": res_path, "VERIF_TRANSPILE_DIR": work}), timeout=1800, check=False)
+        if p.returncode != 0 or not os.path.exists(res_path):
+            raise Inconclusive("transpiler native harness failed: %s" % ((p.stderr or "")[-2000:]))
+        out = {}
+        with open(res_path) as f:
+            for l in f:
+                t = l.split()
+                if len(t) >= 3 and t[0] == "transpile":
+                    out[t[1]] = t[2:]
+        return out
